@@ -13,6 +13,8 @@
 (* long as the environment likes.  Threads:                                *)
 (*    clunk(r)   Tclunk: LookupFID, safelyRead, DecRef; then DeleteFID      *)
 (*               -> DecRef (as found, R21: with fidMu held throughout)     *)
+(*    opn(r)     the same without path locks (Tlock): LookupFID, backend   *)
+(*               call, deferred DecRef                                     *)
 (*    op(r)      a request using fid r: LookupFID (IncRef), safelyRead,    *)
 (*               backend call, deferred DecRef outside every lock          *)
 (*    rename     Trenameat(src,old,tgt,new): safelyGlobal, RenameAt,       *)
@@ -147,6 +149,7 @@ Start:
 St1:
   if Kind(self) = "clunk" then goto C0;
   elsif Kind(self) = "op" then goto O0;
+  elsif Kind(self) = "opn" then goto N0;
   elsif Kind(self) = "rename" then goto R0;
   else goto S0;
   end if;
@@ -195,6 +198,20 @@ O3: CbEnd("GetAttr", ThrCfg[self].r);
     rd[RMU] := rd[RMU] \ {self};
     call DecRef(ThrCfg[self].r);
 O6: done[self] := "ok";
+    goto Fin;
+
+\* ---- a request whose backend call runs without any path lock (Tlock, Tstatfs): LookupFID, call, deferred DecRef
+N0: await wr[FMU(ConnOf(self))] = 0;
+    if ~table[ThrCfg[self].r] then
+      done[self] := "EBADF";
+      goto Fin;
+    else
+      refs[ThrCfg[self].r] := refs[ThrCfg[self].r] + 1;
+    end if;
+N1: CbBegin("Lock", ThrCfg[self].r, 0);
+N2: CbEnd("Lock", ThrCfg[self].r);
+    call DecRef(ThrCfg[self].r);
+N3: done[self] := "ok";
     goto Fin;
 
 \* ---- Trenameat
@@ -349,7 +366,7 @@ S2: goto S1;
 Fin: skip;
 end process;
 end algorithm; *)
-\* BEGIN TRANSLATION (chksum(pcal) = "5e0ae196" /\ chksum(tla) = "1df73e5b")
+\* BEGIN TRANSLATION (chksum(pcal) = "a74de3b4" /\ chksum(tla) = "b6ee04ac")
 CONSTANT defaultInitValue
 VARIABLES pc, refs, par, kids, nat, table, closing, closedN, inb, uac, wr, rd, 
           ww, rw, started, done, stack
@@ -457,9 +474,11 @@ St1(self) == /\ pc[self] = "St1"
                    THEN /\ pc' = [pc EXCEPT ![self] = "C0"]
                    ELSE /\ IF Kind(self) = "op"
                               THEN /\ pc' = [pc EXCEPT ![self] = "O0"]
-                              ELSE /\ IF Kind(self) = "rename"
-                                         THEN /\ pc' = [pc EXCEPT ![self] = "R0"]
-                                         ELSE /\ pc' = [pc EXCEPT ![self] = "S0"]
+                              ELSE /\ IF Kind(self) = "opn"
+                                         THEN /\ pc' = [pc EXCEPT ![self] = "N0"]
+                                         ELSE /\ IF Kind(self) = "rename"
+                                                    THEN /\ pc' = [pc EXCEPT ![self] = "R0"]
+                                                    ELSE /\ pc' = [pc EXCEPT ![self] = "S0"]
              /\ UNCHANGED << refs, par, kids, nat, table, closing, closedN, 
                              inb, uac, wr, rd, ww, rw, started, done, stack, c, 
                              it, rf, df, orig, sn, tn >>
@@ -578,6 +597,47 @@ O3(self) == /\ pc[self] = "O3"
                             tn >>
 
 O6(self) == /\ pc[self] = "O6"
+            /\ done' = [done EXCEPT ![self] = "ok"]
+            /\ pc' = [pc EXCEPT ![self] = "Fin"]
+            /\ UNCHANGED << refs, par, kids, nat, table, closing, closedN, inb, 
+                            uac, wr, rd, ww, rw, started, stack, c, it, rf, df, 
+                            orig, sn, tn >>
+
+N0(self) == /\ pc[self] = "N0"
+            /\ wr[FMU(ConnOf(self))] = 0
+            /\ IF ~table[ThrCfg[self].r]
+                  THEN /\ done' = [done EXCEPT ![self] = "EBADF"]
+                       /\ pc' = [pc EXCEPT ![self] = "Fin"]
+                       /\ refs' = refs
+                  ELSE /\ refs' = [refs EXCEPT ![ThrCfg[self].r] = refs[ThrCfg[self].r] + 1]
+                       /\ pc' = [pc EXCEPT ![self] = "N1"]
+                       /\ done' = done
+            /\ UNCHANGED << par, kids, nat, table, closing, closedN, inb, uac, 
+                            wr, rd, ww, rw, started, stack, c, it, rf, df, 
+                            orig, sn, tn >>
+
+N1(self) == /\ pc[self] = "N1"
+            /\ inb' = (inb \cup {<<self, "Lock", (ThrCfg[self].r)>>})
+            /\ uac' = (uac \cup (IF closing[(ThrCfg[self].r)] > 0 THEN {<<"Lock", "on", (ThrCfg[self].r)>>} ELSE {})
+                           \cup (IF 0 # 0 /\ closing[0] > 0 THEN {<<"Lock", "arg", 0>>} ELSE {}))
+            /\ pc' = [pc EXCEPT ![self] = "N2"]
+            /\ UNCHANGED << refs, par, kids, nat, table, closing, closedN, wr, 
+                            rd, ww, rw, started, done, stack, c, it, rf, df, 
+                            orig, sn, tn >>
+
+N2(self) == /\ pc[self] = "N2"
+            /\ inb' = inb \ {<<self, "Lock", (ThrCfg[self].r)>>}
+            /\ /\ c' = [c EXCEPT ![self] = ThrCfg[self].r]
+               /\ stack' = [stack EXCEPT ![self] = << [ procedure |->  "DecRef",
+                                                        pc        |->  "N3",
+                                                        c         |->  c[self] ] >>
+                                                    \o stack[self]]
+            /\ pc' = [pc EXCEPT ![self] = "D0"]
+            /\ UNCHANGED << refs, par, kids, nat, table, closing, closedN, uac, 
+                            wr, rd, ww, rw, started, done, it, rf, df, orig, 
+                            sn, tn >>
+
+N3(self) == /\ pc[self] = "N3"
             /\ done' = [done EXCEPT ![self] = "ok"]
             /\ pc' = [pc EXCEPT ![self] = "Fin"]
             /\ UNCHANGED << refs, par, kids, nat, table, closing, closedN, inb, 
@@ -951,15 +1011,16 @@ Fin(self) == /\ pc[self] = "Fin"
 
 thr(self) == Start(self) \/ St1(self) \/ C0(self) \/ Ca(self) \/ Cb(self)
                 \/ Cc(self) \/ C1(self) \/ O0(self) \/ O1(self) \/ O2(self)
-                \/ O3(self) \/ O6(self) \/ R0(self) \/ R1(self) \/ R3(self)
-                \/ R5(self) \/ R8(self) \/ R10(self) \/ R11(self)
-                \/ R12(self) \/ R13(self) \/ R15(self) \/ R16(self)
-                \/ R17(self) \/ R18(self) \/ R20(self) \/ R21(self)
-                \/ R21b(self) \/ R22(self) \/ R23(self) \/ R24(self)
-                \/ R24b(self) \/ R25(self) \/ R26(self) \/ R28(self)
-                \/ R29(self) \/ R29b(self) \/ R29c(self) \/ R30(self)
-                \/ R32(self) \/ R33(self) \/ S0(self) \/ S1(self)
-                \/ S2(self) \/ Fin(self)
+                \/ O3(self) \/ O6(self) \/ N0(self) \/ N1(self) \/ N2(self)
+                \/ N3(self) \/ R0(self) \/ R1(self) \/ R3(self) \/ R5(self)
+                \/ R8(self) \/ R10(self) \/ R11(self) \/ R12(self)
+                \/ R13(self) \/ R15(self) \/ R16(self) \/ R17(self)
+                \/ R18(self) \/ R20(self) \/ R21(self) \/ R21b(self)
+                \/ R22(self) \/ R23(self) \/ R24(self) \/ R24b(self)
+                \/ R25(self) \/ R26(self) \/ R28(self) \/ R29(self)
+                \/ R29b(self) \/ R29c(self) \/ R30(self) \/ R32(self)
+                \/ R33(self) \/ S0(self) \/ S1(self) \/ S2(self)
+                \/ Fin(self)
 
 (* Allow infinite stuttering to prevent deadlock on termination. *)
 Terminating == /\ \A self \in ProcSet: pc[self] = "Done"
